@@ -20,6 +20,7 @@ type SpecEnv struct {
 	old    *State
 	lookup func(name string) (Term, types.Type, bool) // program-point resolver
 	pkg    *types.Package
+	rangePos func() (Term, bool)
 }
 
 type sval struct {
@@ -663,6 +664,14 @@ func (env *SpecEnv) call(x *SExpr) (sval, error) {
 		if len(args) == 1 && args[0].Op == "str" {
 			return sval{e.family(env.cur, "g."+args[0].Name, SInt), types.Typ[types.Int]}, nil
 		}
+	case "rangepos":
+		// byte position of the string range iterator of the loop being specified
+		if env.rangePos != nil {
+			if t, ok := env.rangePos(); ok {
+				return sval{t, types.Typ[types.Int]}, nil
+			}
+		}
+		return sval{}, fmt.Errorf("rangepos(): no string range iterator in this loop")
 	case "site":
 		if len(args) == 1 && args[0].Op == "ident" {
 			if t, ok := env.f.sites[args[0].Name]; ok {
@@ -870,7 +879,18 @@ func (f *Frame) loopInvariants(li *loopInfo) []*Clause {
 	if ls := f.loopSpec(li); ls != nil {
 		out = append(out, ls.Invariants...)
 	}
-	out = append(out, f.e.inferred[li]...)
+	e := f.e
+	key := loopKey{f.fn, li.header.Index}
+	if e.houdini && e.firstRound {
+		if e.candByLoop == nil {
+			e.candByLoop = map[loopKey][]*Clause{}
+		}
+		if _, ok := e.candByLoop[key]; !ok {
+			e.candByLoop[key] = e.loopCandidates(f, li)
+		}
+		return out
+	}
+	out = append(out, e.keptInv[key]...)
 	return out
 }
 
@@ -884,8 +904,41 @@ func (f *Frame) loopVariants(li *loopInfo) []*Clause {
 // evalInvariant evaluates a loop clause at the header with the given phi
 // bindings and state.
 func (f *Frame) evalInvariant(cl *Clause, li *loopInfo, phiEnv map[*ssa.Phi]Term, st *State, _ interface{}) Term {
+	if cl.Gen != nil {
+		get := func(v ssa.Value) (Term, bool) {
+			if phi, ok := v.(*ssa.Phi); ok && phiEnv != nil {
+				if t, ok := phiEnv[phi]; ok {
+					return t, true
+				}
+			}
+			if c, ok := v.(*ssa.Const); ok {
+				return f.constTerm(c), true
+			}
+			for fr := f; fr != nil; fr = fr.parent {
+				if t, ok := fr.vals[v]; ok {
+					return t, true
+				}
+			}
+			return Term{}, false
+		}
+		t, ok := cl.Gen(get, st)
+		if !ok {
+			return Term{}
+		}
+		return t
+	}
 	env := &SpecEnv{f: f, names: map[string]Term{}, types: map[string]types.Type{}, cur: st, old: f.entry}
 	env.lookup = f.resolverAt(li.header, phiEnv, st)
+	env.rangePos = func() (Term, bool) {
+		for _, in := range li.header.Instrs {
+			if nx, ok := in.(*ssa.Next); ok && nx.IsString {
+				if it, ok := f.vals[nx.Iter]; ok {
+					return sel(f.e.family(st, "Iter.pos", arraySort(SInt, SInt)), it, SInt), true
+				}
+			}
+		}
+		return Term{}, false
+	}
 	v, err := env.eval(cl.Expr)
 	if err != nil {
 		f.e.specError("%s: loop clause %q: %v", f.e.Key, cl.Text, err)
